@@ -30,11 +30,13 @@ for p in props:
             "design_ref": f"DESIGN.md section 3, {pid}",
         },
         "level_note": getattr(mod, "LEVEL_NOTE", "Sampling within stated size bounds, not proof. " + " ".join(mod.ASSUMPTIONS)),
-        "technique": mod.TECHNIQUE,
+        "technique": mod.TECHNIQUE + ("" if hasattr(mod, "worker") else
+                                      "; the thorough tier adds a coverage-guided stage (atheris/libFuzzer shards driving the same "
+                                      "strategy through Hypothesis fuzz_one_input, gtirb_rewriting instrumented, same oracle)"),
     })
 man = {
     "version": 1,
-    "setup_cmd": "/venv/bin/python -c 'import hypothesis' 2>/dev/null || /venv/bin/pip install --no-index --find-links /opt/veriftools/wheels hypothesis",
+    "setup_cmd": "(/venv/bin/python -c 'import hypothesis' 2>/dev/null || /venv/bin/pip install --no-index --find-links /opt/veriftools/wheels hypothesis) && (PYTHONPATH=.deps /venv/bin/python -c 'import atheris' 2>/dev/null || /venv/bin/pip install -q --no-index --find-links /opt/veriftools/wheels --target .deps atheris || true)",
     "hooks": {
         "guard": "GTIRB_REWRITING_VERIF",
         "enable": "checks set GTIRB_REWRITING_VERIF=1 in their own process and import gtirb_rewriting from /repo/src (pure Python, nothing to build)",
